@@ -623,4 +623,65 @@ example :
     ∧ thetaRow exF 1 [1] [9/4] [8/3] [64/9] [] [7] [3] [1/2] 0 1 = [0, 0] :=
   ⟨fun e e' => by simp [exF, polyRes_length], by decide +kernel, by decide +kernel⟩
 
+/-- **Every returned step of every history, failed steps included.**  Whatever sequence of `update` /
+    `set_var` / `reset` calls is made after `initialize()`, and whichever of the `update` calls fail
+    (the root finder — nlpsol, newton, fast_newton, ... — is an arbitrary oracle that may refuse any
+    step): every `update` that RETURNS leaves a state satisfying the model equations, the extra
+    equations and the difference quotients relative to the object state right before that call — also
+    when that state is what a failed `update` left behind; every `update` that RAISES leaves the
+    unknowns and inputs untouched, and the object keeps its shape, so the run can go on. -/
+theorem C09_history_returned_steps (M : Static) (F G : ResFn) (root : Root) (hroot : RootSound root)
+    (hwf : NomWF M) (ops : List Op) (o : SimObj)
+    (hcur : o.cur.sv.length = M.L.len) (hinit : o.init.length = M.L.len) :
+    ∀ e ∈ updateLog M F G root o ops,
+      e.1.sv.length = M.L.len
+      ∧ (∀ s', e.2.2 = .returned s' →
+          let dt := if e.2.1 > 0 then e.2.1 else e.1.dt
+          (∀ v ∈ F (envOf M s'), v = 0) ∧ (∀ v ∈ G (envOf M s'), v = 0)
+          ∧ (envOf M s').d = diffQuot M e.1 s' dt
+          ∧ (∀ v ∈ F { envOf M s' with d := diffQuot M e.1 s' dt }, v = 0)
+          ∧ (envOf M s').t = (envOf M e.1).t + dt
+          ∧ (envOf M s').u = (envOf M e.1).u)
+      ∧ (∀ s', e.2.2 = .raised s' →
+          s'.sv.take M.L.nX = e.1.sv.take M.L.nX ∧ s'.sv.drop (M.L.nX + 1) = e.1.sv.drop (M.L.nX + 1)
+          ∧ s'.sv.length = M.L.len) := by
+  induction ops generalizing o with
+  | nil => intro e he; cases he
+  | cons op rest ih =>
+    intro e he
+    have hl := applyOp_lengths M F G root hroot hwf o hcur hinit op
+    cases op with
+    | update dtArg =>
+      simp only [updateLog, List.singleton_append, List.mem_cons] at he
+      rcases he with he | he
+      · subst he
+        refine ⟨hcur, ?_, ?_⟩
+        · intro s' hs'
+          have := C09_step_backward_euler M F G root hroot hwf o.cur s' dtArg hcur hs'
+          simp only at this
+          exact ⟨this.1, this.2.1, this.2.2.1, this.2.2.2.1, this.2.2.2.2.1, this.2.2.2.2.2.1⟩
+        · intro s' hs'
+          have hol := update_obj_length M F G root hroot hwf o.cur dtArg hcur
+          have hu := update_unfold M F G root o.cur dtArg hwf hcur
+          simp only at hu hs'
+          rw [hs'] at hol
+          rw [hu] at hs'
+          split at hs'
+          · cases hs'
+            refine ⟨by simp [List.take_set_of_le], by simp [List.drop_set_of_lt], hol⟩
+          · cases hs'
+      · exact ih _ hl.1 hl.2 e he
+    | setVar i neg v =>
+      simp only [updateLog, List.nil_append] at he
+      exact ih _ hl.1 hl.2 e he
+    | reset =>
+      simp only [updateLog, List.nil_append] at he
+      exact ih _ hl.1 hl.2 e he
+
+/-- non-vacuity: a history with a failed step in the middle -/
+example :
+    (updateLog exM exF exG (checkedRoots [[4/15, 32/9, 5/3]]) { cur := exS, init := exS.sv }
+        [.update 1, .update (-1), .reset, .update 1]).map (fun e => e.2.2.isReturned) = [true, false, true] := by
+  decide +kernel
+
 end RtcVerif.C09
